@@ -20,7 +20,7 @@ VARIABLES l, bad, cnt
 vars == <<l, bad, cnt>>
 
 RelNames == {"incr_eq_scratch", "same_final", "noop_rebuild", "cone", "crash_equiv",
-             "watch_eq_restart", "nontrivial"}
+             "watch_eq_restart", "nontrivial", "clean_tool"}
 Bump(c, name) == [c EXCEPT ![name] = @ + 1]
 
 Mk(e, prop, clauses) ==
@@ -44,8 +44,19 @@ IncrEqScratch(e) ==
   ELSE {}
 
 (* C02 *)
+\* F8: a creator that defers on a file whose production needs a step the creator itself created
+\* (a cycle through provenance and dependencies): under a schedule in which the created steps
+\* do not get to run before the creator is deferred, they stay unsafe for ever.
+DeferredCreatorCycle(db) ==
+  \E s \in Steps(db) : ~db.nodes[s].detached /\ db.nodes[s].sstate = "PENDING" /\ db.nodes[s].deferred
+     /\ \E t \in Products(db, s) : db.nodes[t].kind = "step" /\ ~db.nodes[t].detached
+                                   /\ db.nodes[t].sstate = "PENDING"
 SameFinal(e) ==
-  (IF RcClass(e.a.rc) # RcClass(e.b.rc) THEN {<<"success_depends_on_schedule", <<e.a.rc, e.b.rc>>>>}
+  (IF RcClass(e.a.rc) # RcClass(e.b.rc)
+   THEN {<<"success_depends_on_schedule", <<e.a.rc, e.b.rc>>,
+           IF (RcClass(e.a.rc) = "pending" /\ Success(e.b.rc) /\ DeferredCreatorCycle(e.a.state))
+              \/ (RcClass(e.b.rc) = "pending" /\ Success(e.a.rc) /\ DeferredCreatorCycle(e.b.state))
+           THEN "F8-deferred-creator-cycle-depends-on-schedule" ELSE "">>}
    ELSE {})
   \cup (IF Success(e.a.rc) /\ Success(e.b.rc)
         THEN Canon2Diff(e.a.state, e.b.state)
@@ -106,6 +117,27 @@ WatchEqRestart(e) ==
   \cup {<<"disk_differs", p>> : p \in {p \in (DOMAIN e.a.disk.files) \cup (DOMAIN e.b.disk.files) :
             DiskContent(e.a.disk, p) # DiskContent(e.b.disk, p)}}
 
+(* C06: `stepup clean` on a read-only connection *)
+CleanTool(e) ==
+  LET db == e.a.state
+      before == e.a.disk
+      after == e.b.disk
+      removed == (DOMAIN before.files) \ (DOMAIN after.files)
+      node(p) == "file:" \o p
+  IN
+     {<<"clean_removed_file_that_is_not_a_recorded_output", p>> : p \in {p \in removed :
+          node(p) \notin Keys(db) \/ db.nodes[node(p)].fstate \notin {"BUILT", "OUTDATED", "VOLATILE"}}}
+  \cup {<<"clean_removed_modified_output", p>> : p \in {p \in removed :
+          ~e.info.unsafe /\ node(p) \in Keys(db) /\ db.nodes[node(p)].fstate \in {"BUILT", "OUTDATED"}
+          /\ before.files[p][1] # db.nodes[node(p)].fhash}}
+  \cup {<<"clean_removed_attached_output_without_all", p>> : p \in {p \in removed :
+          ~e.info.all /\ node(p) \in Keys(db) /\ ~db.nodes[node(p)].detached}}
+  \cup {<<"clean_removed_without_commit", p>> : p \in {p \in removed : ~e.info.commit}}
+  \cup {<<"clean_changed_a_file", p>> : p \in {p \in (DOMAIN before.files) \cap (DOMAIN after.files) :
+          before.files[p] # after.files[p]}}
+  \cup {<<"clean_created_a_file", p>> : p \in (DOMAIN after.files) \ (DOMAIN before.files)}
+  \cup (IF e.a.state # e.b.state THEN {<<"clean_changed_the_database", "">>} ELSE {})
+
 Eval(e) ==
   CASE e.rel = "incr_eq_scratch" -> Mk(e, "C01", IncrEqScratch(e))
     [] e.rel = "same_final" -> Mk(e, "C02", SameFinal(e))
@@ -113,6 +145,7 @@ Eval(e) ==
     [] e.rel = "cone" -> Mk(e, "C04", Cone(e))
     [] e.rel = "crash_equiv" -> Mk(e, "C05", CrashEquiv(e))
     [] e.rel = "watch_eq_restart" -> Mk(e, "C14", WatchEqRestart(e))
+    [] e.rel = "clean_tool" -> Mk(e, "C06", CleanTool(e))
     [] OTHER -> <<>>
 
 Init == l = 0 /\ bad = <<>> /\ cnt = [r \in RelNames |-> 0]
